@@ -275,6 +275,15 @@ def prove(ctx, prop_file, extra_targets=()):
     if not ok:
         res.update(stage="translate", log=out)
         return res
+    # a generator that no longer understands its part of the source leaves a stub that does not compile:
+    # only what depends on that file is affected
+    stopped = dict(re.findall(r"^stopped (\S+): (.*)$", out, re.M))
+    if stopped:
+        deps = coq_deps(files + [t[:-1] for t in extra_targets])
+        hit = sorted(g for g in stopped if "Gen/" + g in deps)
+        if hit:
+            res.update(stage="translate", failed_at="Gen/" + hit[0], log="\n".join("TRANSLATOR-STOP: %s: %s" % (g, stopped[g]) for g in hit))
+            return res
     bad = forbidden_scan()
     if bad:
         res.update(stage="forbidden", log="\n".join(bad))
@@ -310,6 +319,24 @@ def prove(ctx, prop_file, extra_targets=()):
         res["coqchk_axioms"] = ax
         ctx.log("coqchk: compiled theorem files re-checked; axioms of the loaded libraries: %s" % (", ".join(a.split(".")[-1] for a in ax) or "none"))
     return res
+
+
+def coq_deps(files):
+    """the .v files (relative to coq/) the given ones import from this development, transitively"""
+    seen, todo = set(), list(files)
+    while todo:
+        f = todo.pop()
+        if f in seen:
+            continue
+        seen.add(f)
+        try:
+            text = open(os.path.join(COQ, f)).read()
+        except OSError:
+            continue
+        for m in re.finditer(r"From\s+Inkfem\s+Require\s+(?:Import|Export)\s+(.*?)\.(?=\s)", text, re.S):
+            for mod in m.group(1).split():
+                todo.append(mod.replace(".", "/") + ".v")
+    return seen
 
 
 def run_cases(ctx, name, vtext, timeout=1500):
